@@ -23,6 +23,10 @@ pub struct Cfg {
     pub prf: bool,
     /// CTAP level rk
     pub ctap_rk: Option<bool>,
+    /// the store's capability changes to this while the user is being asked during registration (e.g. the user picks
+    /// another vault in the prompt); only "credProps equals what was stored" and the assertion rules are judged then
+    #[serde(default)]
+    pub cap_after_prompt: Option<Disc>,
 }
 
 fn mapped_rk(resident_key: u8, require: bool, supports_rk: bool) -> bool {
@@ -39,6 +43,12 @@ pub fn check(ctx: &mut Ctx, c: &Cfg) -> Result<(), String> {
     ctx.nontrivial(c);
     let store = RefStore::new(c.cap);
     let uv = ScriptedUv::new(UvScript::verified());
+    if let Some(new_cap) = c.cap_after_prompt {
+        let s2 = store.clone();
+        uv.on_next_check(move || s2.set_disc(new_cap));
+    }
+    let dynamic = c.cap_after_prompt.is_some();
+    let uv_handle = uv.clone();
     let auth = cer::build_authenticator(store.clone(), uv, &AuthCfg { counter: true, hmac: if c.prf { crate::cer::HmacCfg::WithoutUvMc } else { crate::cer::HmacCfg::None }, ..Default::default() });
     let supports_rk = c.cap != Disc::OnlyNonDiscoverable;
     let site = &SITES[0];
@@ -68,6 +78,13 @@ pub fn check(ctx: &mut Ctx, c: &Cfg) -> Result<(), String> {
         let refused_expected = rk && c.cap == Disc::OnlyNonDiscoverable;
         let creds = store.creds();
         match res {
+            Err(_) if dynamic => {
+                ctx.class("client/refused-dynamic");
+                if !creds.is_empty() {
+                    return Err("a refused registration stored a credential".into());
+                }
+                return Ok(());
+            }
             Err(e) => {
                 ctx.class("client/refused");
                 if !refused_expected {
@@ -79,20 +96,20 @@ pub fn check(ctx: &mut Ctx, c: &Cfg) -> Result<(), String> {
                 return Ok(());
             }
             Ok(cred) => {
-                ctx.class("client/registered");
-                if refused_expected {
+                ctx.class(if dynamic { "client/registered-dynamic" } else { "client/registered" });
+                if refused_expected && !dynamic {
                     return Err(format!("a required resident key was accepted by a store that can only hold non-discoverable credentials (stored handle present: {:?})", creds.first().map(|c| c.user_handle.is_some())));
                 }
                 // the rk option the authenticator passed on
                 let sent: Vec<bool> = store.log().iter().filter_map(|c| if let StoreCall::Save { rk, .. } = c { Some(*rk) } else { None }).collect();
-                if sent != vec![rk] {
+                if sent != vec![rk] && !dynamic {
                     return Err(format!("resident-key option sent to the authenticator/store was {sent:?}, the WebAuthn mapping gives {rk}"));
                 }
                 if creds.len() != 1 {
                     return Err(format!("{} credentials stored", creds.len()));
                 }
                 let discoverable = creds[0].user_handle.is_some();
-                if discoverable != c.cap.discoverable(rk) {
+                if discoverable != c.cap.discoverable(rk) && !dynamic {
                     return Err(format!("stored user handle present = {discoverable}, capability {:?} with rk={rk} means {}", c.cap, c.cap.discoverable(rk)));
                 }
                 if discoverable && creds[0].user_handle.as_ref().map(|b| b.to_vec()) != Some(b"c11-user-handle".to_vec()) {
@@ -110,8 +127,10 @@ pub fn check(ctx: &mut Ctx, c: &Cfg) -> Result<(), String> {
                     }
                 }
                 // now assertions (several: the stored record is rewritten by the counter update in between)
-                for round in 1..=3 {
-                    let req = cer::request_options(site.rp, b"c11 challenge 2", Some(vec![cer::descriptor(&cred.raw_id)]), cer::uv_req(1), None);
+                for round in 1..=3u8 {
+                    // preferred, discouraged (the validation step then only reports presence), required
+                    uv_handle.set(if round == 2 { UvScript::present_only() } else { UvScript::verified() });
+                    let req = cer::request_options(site.rp, b"c11 challenge 2", Some(vec![cer::descriptor(&cred.raw_id)]), cer::uv_req(round), None);
                     let a = block_on(client.authenticate(site.origin(), req, DefaultClientData)).map_err(|e| format!("assertion #{round} with the new credential failed: {e:?}"))?;
                     let stored_now = store.creds().first().map(|c| c.user_handle.is_some()).unwrap_or(false);
                     if stored_now != discoverable {
@@ -162,13 +181,14 @@ pub fn check(ctx: &mut Ctx, c: &Cfg) -> Result<(), String> {
                     return Err(format!("stored user handle present = {discoverable}, capability {:?} with rk={rk} means {}", c.cap, c.cap.discoverable(rk)));
                 }
                 let id = r.auth_data.attested_credential_data.as_ref().ok_or("no attested data")?.credential_id().to_vec();
-                for round in 1..=3 {
+                for round in 1..=3u8 {
+                    uv_handle.set(if round == 2 { UvScript::present_only() } else { UvScript::verified() });
                     let a = block_on(auth.get_assertion(get_assertion::Request {
                         rp_id: "example.com".into(),
                         client_data_hash: vec![9u8; 32].into(),
                         allow_list: Some(vec![cer::descriptor(&id)]),
                         extensions: None,
-                        options: get_assertion::Options { rk: false, up: true, uv: true },
+                        options: get_assertion::Options { rk: false, up: true, uv: round != 2 },
                         pin_auth: None,
                         pin_protocol: None,
                     }))
@@ -190,25 +210,33 @@ pub fn all_configs() -> Vec<Cfg> {
             for require in [false, true] {
                 for cp in 0..3u8 {
                     for prf in [false, true] {
-                        v.push(Cfg { cap, client: Some((rkreq, require, cp, true)), ctap_rk: None, prf });
+                        v.push(Cfg { cap, client: Some((rkreq, require, cp, true)), ctap_rk: None, prf, cap_after_prompt: None });
                     }
                 }
             }
         }
         // no authenticatorSelection at all
         for cp in 0..3u8 {
-            v.push(Cfg { cap, client: Some((0, false, cp, false)), ctap_rk: None, prf: false });
-            v.push(Cfg { cap, client: Some((0, false, cp, false)), ctap_rk: None, prf: true });
+            v.push(Cfg { cap, client: Some((0, false, cp, false)), ctap_rk: None, prf: false, cap_after_prompt: None });
+            v.push(Cfg { cap, client: Some((0, false, cp, false)), ctap_rk: None, prf: true, cap_after_prompt: None });
         }
         for rk in [false, true] {
-            v.push(Cfg { cap, client: None, ctap_rk: Some(rk), prf: false });
+            v.push(Cfg { cap, client: None, ctap_rk: Some(rk), prf: false, cap_after_prompt: None });
+        }
+        // the capability changes while the user is being asked (credProps requested)
+        for new_cap in Disc::ALL.into_iter().filter(|n| *n != cap) {
+            for rkreq in 0..4u8 {
+                for require in [false, true] {
+                    v.push(Cfg { cap, client: Some((rkreq, require, 2, true)), ctap_rk: None, prf: false, cap_after_prompt: Some(new_cap) });
+                }
+            }
         }
     }
     v
 }
 
 pub fn run(ctx: &mut Ctx) {
-    ctx.rule = "complete product: store capability (3) x residentKey (absent, discouraged, preferred, required) x requireResidentKey (2) x credProps request (absent, false, true) x PRF requested on a PRF-capable authenticator (2) through Client::register followed by three authentications (counters on, so the record is rewritten in between), plus authenticatorSelection absent (3x3), plus capability x CTAP rk (2) through make_credential / get_assertion. Every configuration is distinct and non-trivial.".into();
+    ctx.rule = "complete product: store capability (3) x residentKey (absent, discouraged, preferred, required) x requireResidentKey (2) x credProps request (absent, false, true) x PRF requested on a PRF-capable authenticator (2) through Client::register followed by three authentications under userVerification preferred / discouraged / required (counters on, so the record is rewritten in between), plus authenticatorSelection absent (3x3), plus the capability changing to each other value while the user is asked (credProps requested; only credProps-versus-stored and the assertion rules are judged), plus capability x CTAP rk (2) through make_credential / get_assertion. Every configuration is distinct and non-trivial.".into();
     ctx.exhaustive = Some(true);
     ctx.assumptions = vec!["the capability is set through the reference store's get_info; user validation always consents".into()];
     let all = all_configs();
